@@ -6,7 +6,11 @@ import IPT.Gen.Protocol
    computes its partition, sends it, and its sender is dropped when the thread ends.
    Channel contract (std::sync::mpsc): unbounded FIFO; `recv` returns a queued message if there is
    one, blocks while the queue is empty and some sender is alive, and returns Err once the queue is
-   empty and every sender has been dropped. -/
+   empty and every sender has been dropped.
+   A worker may also panic inside its computation (`prayer_times_dt_rng` panics when a clock
+   conversion does): it then sends nothing, the unwind drops its sender clone, the collector ends
+   with the results of the others, and `thread::scope` re-raises the panic when it joins - action
+   `die`, flag `panicked`. -/
 namespace IPT
 variable {P : Type}
 
@@ -18,16 +22,18 @@ structure BState (P : Type) where
   merged : List P      -- what the collector has appended so far, in arrival order
   txAlive : Bool       -- the main thread still holds the original sender
   done : Bool          -- the collector's receive loop has ended
+  panicked : Bool      -- some worker panicked (its result is lost; thread::scope re-raises the panic)
 
 inductive BAct where
   | spawn               -- main: clone the sender, spawn the next worker
   | send (i : Nat)      -- worker i (index into `running`): send its result; its sender clone is dropped
   | dropTx              -- main: drop the original sender (after the spawn loop)
+  | die (i : Nat)       -- worker i panics inside its computation: nothing is sent, its sender clone is dropped by the unwind
   | recv                -- collector: receive the oldest message and append it
   | close               -- collector: recv returns Err (queue empty, no sender left): loop ends
   deriving Repr
 
-def bInit (parts : List P) : BState P := ⟨parts, [], [], [], true, false⟩
+def bInit (parts : List P) : BState P := ⟨parts, [], [], [], true, false, false⟩
 
 /-- one transition; `none` = the action is not enabled in this state -/
 def bStep (s : BState P) : BAct → Option (BState P)
@@ -36,6 +42,9 @@ def bStep (s : BState P) : BAct → Option (BState P)
     | [] => none
   | .send i => match s.running[i]? with
     | some p => if s.done then none else some { s with running := s.running.eraseIdx i, queue := s.queue ++ [p] }
+    | none => none
+  | .die i => match s.running[i]? with
+    | some _ => if s.done then none else some { s with running := s.running.eraseIdx i, panicked := true }
     | none => none
   | .dropTx => if s.toSpawn.isEmpty && s.txAlive then some { s with txAlive := false } else none
   | .recv => match s.queue with
